@@ -290,6 +290,20 @@ func (c *Case) build() (src, want string, panics bool) {
 		stmt(`fmt.Println("twin", len(%s), []byte(%s), %s == a, len(%s))`, tw, tw, tw, c.A.Lit)
 		out("twin", len(twContent), []byte(twContent), twContent == A, len(A))
 	}
+	// a conversion of the literal yields fresh bytes every time it is evaluated: writing into one result does not
+	// show in the next
+	if len(A) > 0 {
+		stmt("for round := 0; round < 3; round++ {")
+		stmt("\tfresh := []byte(%s)", c.A.Lit)
+		stmt("\tfresh[round%%len(fresh)] = 33")
+		stmt("\tfmt.Println(\"fresh\", round, fresh)")
+		stmt("}")
+		for round := 0; round < 3; round++ {
+			fb := []byte(A)
+			fb[round%len(fb)] = 33
+			out("fresh", round, fb)
+		}
+	}
 	// character literals
 	for _, ch := range c.Chars {
 		stmt(`fmt.Println("char", %s)`, ch)
